@@ -1,11 +1,85 @@
 package main
 
+import "go/ast"
+
 // regenerated facts of the "proxy" family (C03 C05 C06 C17)
 
 func init() { families = append(families, factsProxy) }
 
+// ifConds lists, in source order, every if-condition in body whose text contains substr.
+func ifConds(body ast.Node, substr string) []string {
+	var out []string
+	if body == nil {
+		return out
+	}
+	ast.Inspect(body, func(n ast.Node) bool {
+		if s, ok := n.(*ast.IfStmt); ok {
+			if t := text(s.Cond); containsStr(t, substr) {
+				out = append(out, t)
+			}
+		}
+		return true
+	})
+	return out
+}
+
+func containsStr(s, sub string) bool {
+	for i := 0; i+len(sub) <= len(s); i++ {
+		if s[i:i+len(sub)] == sub {
+			return true
+		}
+	}
+	return false
+}
+
+// ifBody returns the statements of the first if whose condition contains substr.
+func ifBody(body ast.Node, substr string) []string {
+	var out []string
+	if body == nil {
+		return out
+	}
+	done := false
+	ast.Inspect(body, func(n ast.Node) bool {
+		if done {
+			return false
+		}
+		if s, ok := n.(*ast.IfStmt); ok && containsStr(text(s.Cond), substr) {
+			for _, st := range s.Body.List {
+				out = append(out, text(st))
+			}
+			done = true
+			return false
+		}
+		return true
+	})
+	return out
+}
+
+// deferredCalls lists the deferred calls of body (source order) whose callee name is `name`.
+func deferredCalls(body ast.Node, name string) []string {
+	var out []string
+	if body == nil {
+		return out
+	}
+	ast.Inspect(body, func(n ast.Node) bool {
+		if d, ok := n.(*ast.DeferStmt); ok && callName(d.Call) == name {
+			out = append(out, "defer "+name)
+		}
+		return true
+	})
+	return out
+}
+
+func prefixed(p string, xs []string) []string {
+	out := make([]string, len(xs))
+	for i, x := range xs {
+		out[i] = p + x
+	}
+	return out
+}
+
 func factsProxy() {
-	// ---- C05: the three conditions the pruning theorems hinge on
+	// ---- C05: the conditions the pruning theorems hinge on
 	px := parse("pkg/store/proxy.go")
 	emitStr("pruneTimeCond", "pkg/store/proxy.go storeMatches: the time-range test",
 		firstIfCond(body(fn(px, "", "storeMatches")), "storeMaxTime"))
@@ -18,4 +92,19 @@ func factsProxy() {
 		firstIfCond(body(fn(pr, "", "matchesExternalLabels")), "extValue"))
 	emitStr("pruneExtRejectCond", "pkg/store/prometheus.go matchesExternalLabels: request rejected",
 		firstIfCond(body(fn(pr, "", "matchesExternalLabels")), "tm.Matches"))
+
+	// ---- C17: who puts the shard buffer back, how often, and how the byte pool tests its budget
+	si := parse("pkg/store/storepb/shard_info.go")
+	emitList("shardMatcherCloseBody", "pkg/store/storepb/shard_info.go ShardMatcher.Close: body of `if s.buffers != nil`",
+		ifBody(body(fn(si, "ShardMatcher", "Close")), "s.buffers != nil"))
+	pm := parse("pkg/store/proxy_merge.go")
+	var sites []string
+	sites = append(sites, prefixed("tree:", callSeq(body(fn(pm, "", "NewProxyResponseLoserTree")), "s.Close"))...)
+	sites = append(sites, prefixed("series:", deferredCalls(body(fn(px, "ProxyStore", "Series")), "respSet.Close"))...)
+	sites = append(sites, prefixed("lazy:", callSeq(body(fn(pm, "lazyRespSet", "Close")), "l.shardMatcher.Close"))...)
+	sites = append(sites, prefixed("eager:", callSeq(body(fn(pm, "eagerRespSet", "Close")), "l.shardMatcher.Close"))...)
+	emitList("proxyCloseSites", "who closes a response set / its shard matcher (loser-tree callback, deferred call in Series, respSet.Close)", sites)
+	pl := parse("pkg/pool/pool.go")
+	emitList("bucketedPoolBudgetTests", "pkg/pool/pool.go BucketedPool.Get: the budget tests in source order",
+		ifConds(body(fn(pl, "BucketedPool", "Get")), "maxTotal"))
 }
